@@ -61,12 +61,14 @@ CLAIMED = {
  "C20": ("exploration", "runtime monitor: byte comparison across thread counts, offline exactly-once checker over a hook event log, perturbed schedules, shared-Module stress, ThreadSanitizer",
          "Every multi-thread entry point is compared byte for byte with its sequential counterpart for thread counts 1..=32, 33, 40, 64 using exact-size scratch windows; the hook event log of each "
          "run is checked offline (each index started and ended exactly once on one worker, nothing out of range); seeded yield/sleep tables and oversubscription perturb the schedules and the number of "
-         "distinct interleavings observed is reported; T threads share one Module/keys/ciphertexts and are replayed alone; a reduced workload runs under ThreadSanitizer. Held on the schedules observed.",
+         "distinct interleavings observed is reported; T threads share one Module/keys/ciphertexts, run mixed operation sequences (incl. circuit bootstrapping with a different result layout / encoding per thread) and are replayed alone; a reduced workload runs under ThreadSanitizer. Held on the schedules observed.",
          "Trusted: the hook call sites (add-only, no-op without callback); TSan does not see the assembly kernels; Module's unsafe Sync impl is exercised, not proved.",
          "DESIGN.md §C20"),
  "C17": ("exploration", "sanitizers: AddressSanitizer (poisoned neighbours), valgrind memcheck, Miri, canary guards over the HAL and core catalogues with aligned and unaligned scratch windows; scratch-carving and deserialise-then-touch histories",
-         "The HAL catalogue (83 operations, N from 1, odd limb counts, 1..3 columns, size < capacity, exact scratch windows carved from guarded allocations) runs under ASan on all four backends, "
-         "under memcheck on all four (covers the global_asm FFT16 kernels) and under Miri on the reference backends; any report, canary change or bounds panic is a violation. "
+         "The HAL catalogue (84 operations, N from 1, odd limb counts, 1..3 columns, size < capacity) and the core catalogue (98 poulpy-core / poulpy-ckks operations) run with exact scratch windows carved from guarded "
+         "allocations (one window in four starts at an arbitrary, not 64-byte aligned address) under ASan on all four backends, under memcheck on all four (covers the global_asm FFT16 kernels) and under Miri on the "
+         "reference backends; random sequences of public take_* calls on windows with arbitrary start addresses are checked view by view (inside the window, disjoint, aligned for the element type); every receiver "
+         "accepted by read_from (valid and header-corrupted streams) is touched limb by limb under ASan; any report, canary change or bounds panic is a violation. "
          "A clean run is evidence for the calls observed, not memory safety.",
          "Trusted: the sanitizers; Miri runs with the System allocator (documented CRITICAL-2 layout mismatch is outside the property).",
          "DESIGN.md §C17"),
@@ -82,7 +84,7 @@ CLAIMED = {
          "Trusted: the exact model in c02.rs / exact.rs.", "DESIGN.md §C02"),
  "C03": ("exploration", "runtime monitor: exact phase under the target key vs exact plaintext image, hard gadget bound, gadget-shape independence; every Galois element for N <= 64",
          "Key-switch (GLWE/GGLWE/GGSW/LWE), the eight automorphism forms, trace at every level, packing, LWE<->GLWE conversion and sample extraction are executed with keys of random gadget shape "
-         "(ranks 1..3, dsize 1..4, dnum, three-way radix mismatch) and judged by exact big-integer phases against the exact image of the input; the Galois grid is complete for N in {8,16,32,64}. "
+         "(ranks 1..3, dsize 1..4, dnum, three-way radix mismatch) and judged by exact big-integer phases against the exact image of the input; composed automorphism keys (glwe_automorphism_key_automorphism) are checked on their recorded Galois element, every row and their use; the Galois grid is complete for N in {8,16,32,64}. "
          "Only a hard bound is used: noise regressions below it are invisible.",
          "Trusted: the bound derivation from gglwe_product_dft (worst 0.44 of the bound where key noise dominates).", "DESIGN.md §C03"),
  "C04": ("exploration", "runtime monitor: exact phase vs exact negacyclic product, every GGSW / GGLWE cell decrypted",
@@ -96,7 +98,7 @@ CLAIMED = {
          "Trusted: the exact model; deterministic operations, so no statistical tolerance.", "DESIGN.md §C05"),
  "C06": ("exploration", "runtime statistical monitor: exactly extracted errors and raw masks, two-sided acceptance bands (false-alarm < 2^-40 per run); byte-level seed-separation metamorphics",
          "Every encryptable object (24 kinds incl. all key material, public, blind-rotation and bootstrapping keys, compressed forms) is encrypted, every cell decrypted exactly, errors pooled per kind "
-         "(>= 2^16 quick / 2^22 thorough coefficients) and tested two-sidedly (variance band, mean, max <= bound, zero fraction), masks tested for range, uniformity, bit balance and lag-1 correlation; "
+         "(>= 2^16 quick / 2^22 thorough coefficients) and tested two-sidedly (variance band, mean, max <= bound incl. tight admissible bounds down to bound = sigma, zero fraction), masks tested for range, uniformity, bit balance and lag-1 correlation; "
          "metamorphic byte comparisons check that the mask depends only on the mask seed and the error seed changes only the body. Statistical: a +-10 % sigma drift is visible at the thorough size.",
          "Trusted: the variance model (rounding +1/12, truncation at the bound); thresholds documented in c06.rs.", "DESIGN.md §C06"),
  "C19": ("exploration", "runtime replay monitor: decompressed cells vs regenerated mask / error stream / public standard encryption; cross-backend byte comparison; serialisation round trip",
